@@ -8,8 +8,11 @@ structure S where
   swapOwner : List (String × String)            -- open swap sym ↦ owner
   transfers : List (String × String × Int)      -- origin transfer records: id ↦ (user, amount)
   lockIds : List String
+  feeSet : Bool := false                        -- a setFee has succeeded (own currency)
+  share : Int := 0                              -- fee share in 1e-8
+  feeAddr : Option String := none
 
-def init : S := ⟨tok0, [], [], []⟩
+def init : S := { t := tok0, swapOwner := [], transfers := [], lockIds := [] }
 
 def users : List String := ["u0", "u1", "u2"]
 def tokK (u : String) : PK := ⟨"2b", u, ""⟩
@@ -31,8 +34,20 @@ def step (s : S) : List String → S × String
   | ["burn", u, n] => match n.toInt? with
     | some n => if n < 0 ∨ s.t.bal (tokK u) < n ∨ s.t.emission < n then (s, "err") else ok s (tstep s.t (.burn (tokK u) n))
     | none => (s, "bad-op")
+  | ["setfee", sh] => match sh.toInt? with
+    | some sh => if sh < 0 ∨ sh > 100000000 then (s, "err") else ({ s with feeSet := true, share := sh }, "ok")
+    | none => (s, "bad-op")
+  | ["setfeeaddr", u] => ({ s with feeAddr := some u }, "ok")
   | ["transfer", a, b, n] => match n.toInt? with
-    | some n => if a = b ∨ n ≤ 0 ∨ s.t.bal (tokK a) < n then (s, "err") else ok s (tstep s.t (.move (tokK a) (tokK b) n))
+    | some n =>
+      if a = b ∨ n ≤ 0 ∨ s.t.bal (tokK a) < n then (s, "err") else
+      let t1 := tstep s.t (.move (tokK a) (tokK b) n)
+      if s.feeSet ∧ s.feeAddr = none then (s, "err") else
+      let fee := if s.feeSet then n * s.share / 100000000 else 0
+      if fee = 0 then ok s t1 else
+      match s.feeAddr with
+      | none => ok s t1
+      | some fa => if t1.bal (tokK a) < fee then (s, "err") else ok s (tstep t1 (.move (tokK a) (tokK fa) fee))
     | none => (s, "bad-op")
   | ["force", a, b, n] => match n.toInt? with
     | some n => if a = b ∨ n ≤ 0 ∨ s.t.bal (tokK a) < n then (s, "err") else ok s (tstep s.t (.move (tokK a) (tokK b) n))
